@@ -122,7 +122,7 @@ class C03(fw.Prop):
             "response, three ACTION responses incl. valid and invalid HLS proofs, exception-response, data-notification, confirmed-service-error, "
             "initiate-response), each followed by a legal continuation; then random histories of up to 200 steps (70 % legal); the left part of every "
             "line is the verdict of the abstract procedure Spec.Assoc (accepted/refused, phase), the rest the model of the code; events outside the "
-            "alphabet (a response kind sent, a request kind received) are compared with the model only; non-trivial = distinct history")
+            "alphabet (a response kind sent, a request kind received) are compared with the model only; field variants of every kind (invoke-id, service class unconfirmed, priority, selective-access descriptor, responses whose invoke-id is not the request's) from every state under negotiated conformances 0, all-ones, 127 and random; non-trivial = distinct history")
     trusted_base = ["extract.py prints DLMS_STATE_TRANSITIONS as it is in the running code", "Spec.Assoc is my reading of the client association procedure",
                     "the harness plays the meter with real AES-GCM and describes each decoded APDU symbolically (connlib)"]
     assumptions = ["the transition table is direction-blind; sends of response kinds and receipts of request kinds are outside C03's alphabet"]
